@@ -198,8 +198,9 @@ Proof. repeat split; vm_compute; reflexivity. Qed.
    soundness is unconditional for the model (C04_A_dynamic_model_sound); the model is tied to lark on every run by the
    stream dyn-families (log of all SymbolNode.add_family calls of real dynamic / dynamic_complete parses = the model's
    log, as sets, on recorded regex answers; the checker is also evaluated on the whole log against a position graph
-   computed by re.fullmatch).  Still open (_partial): completeness of the dynamic forest w.r.t. Dyn's chart over the
-   position graph, left to the derivation oracle of the ignore / acyclic streams. *)
+   computed by re.fullmatch).  Completeness w.r.t. Dyn's chart over the position graph is proved for the families of
+   predict_and_complete (C04_A_dynamic_complete_partial below); for the scanner's token families and the carry-over
+   copies it stays with the stream and the derivation oracle of the ignore / acyclic streams. *)
 Theorem C04_A_dynamic_erasure G start n rmatch rtrunc complete_lex ignore :
   fst (idyn_parse G start n rmatch rtrunc complete_lex ignore) = dyn_parse G start n rmatch rtrunc complete_lex ignore.
 Proof. exact (dyn_erasure G (pred_lookup G (pred_table G)) start n rmatch rtrunc complete_lex ignore). Qed.
@@ -240,6 +241,33 @@ Theorem C04_A_dynamic_model_sound G start n rmatch rtrunc complete_lex ignore a 
             /\ gtiles (run_tokedge rmatch rtrunc complete_lex) (ign_edge rmatch ignore) i j (yield span d).
 Proof. exact (idyn_model_sound_root G start n rmatch rtrunc complete_lex ignore a i j ds). Qed.
 Print Assumptions C04_A_dynamic_model_sound.
+
+(* Completeness for the dynamic model, _partial: the families of predict_and_complete.  For every column the run
+   builds, every completion between two items of the chart over the position graph (Dyn_proofs.gchart: originator y in
+   column i expecting a, completed item x of a in column k with origin i) has its family
+   (label of advance y at k, (rule, node of y at i, (a, i, k))) in the log - inside one column whichever of the two is
+   popped second adds it - and every completed empty rule has its (None, None) family.  Not proved: that the token
+   family of every scan step and every copy made by the carry-over is logged (it needs the delayed_matches invariant of
+   Dyn_proofs lifted to the instrumented entries, and the copy is of the first family per (left, right) only); the
+   dyn-families stream compares exactly these sets with lark on every run. *)
+Theorem C04_A_dynamic_complete_partial G start n rmatch rtrunc complete_lex ignore :
+  fwd rmatch rtrunc ->
+  (forall i k y x a,
+      gchart G start rmatch rtrunc complete_lex ignore i y -> expect y = Some (NT a) ->
+      gchart G start rmatch rtrunc complete_lex ignore k x -> expect x = None -> orig x = i -> lhs (irule x) = a ->
+      k < length (d_cols (fst (idyn_parse G start n rmatch rtrunc complete_lex ignore))) ->
+      In (comp_fam nat k i a y) (snd (idyn_parse G start n rmatch rtrunc complete_lex ignore)))
+  /\ (forall k x,
+      gchart G start rmatch rtrunc complete_lex ignore k x -> expect x = None -> dot x = 0 ->
+      k < length (d_cols (fst (idyn_parse G start n rmatch rtrunc complete_lex ignore))) ->
+      In (NSym nat (lhs (irule x)) (orig x) k, (irule x, None, None))
+         (snd (idyn_parse G start n rmatch rtrunc complete_lex ignore))).
+Proof.
+  intros Hf. split.
+  - exact (idyn_completion_families G start n rmatch rtrunc complete_lex ignore Hf).
+  - exact (idyn_empty_families G start n rmatch rtrunc complete_lex ignore Hf).
+Qed.
+Print Assumptions C04_A_dynamic_complete_partial.
 
 (* non-vacuity: start: X with %ignore " " on "x " (terminal 0 = X matches 0..1, terminal 1 = the ignored blank matches
    1..2): accepted; the family of (start, 0, 1) is copied to (start, 0, 2) by the carry-over; all families have the
